@@ -16,12 +16,12 @@ RULE = ("(suite, sk, message) from Hypothesis - sk in {1, 2, r-2, r-1}, every bi
         "own ZCash encoder, suite tags written out as the draft's literal strings); the published Ethereum "
         "vectors (9 signatures, 3 public keys, 2 aggregates) and the generator encodings are replayed "
         "against both the model and the library in every run. Non-trivial = a case with sk >= 2^128 or a "
-        "non-empty message, or an aggregate of >= 2 signatures; distinct by (suite, entry point, sk, sha256(msg))")
+        "non-empty message, an aggregate of >= 2 signatures, or a cross-suite call sequence (the same key and message signed under all suites and as a possession proof, forwards and backwards, in one process); distinct by (suite, entry point, sk, sha256(msg))")
 ASSUMPTIONS = ["the independent model vf/model/{blssig,h2c,bls12381}.py and its frozen isogeny coefficients; "
                "anchored by RFC 9380 J.9.1/J.10.1, EIP-2333 and Ethereum consensus-spec BLS vectors",
                "hashlib.sha256 is correct"]
 ENGINE = "hypothesis"
-_REQ = ["sign:basic", "sign:aug", "sign:pop", "pop_prove", "aggregate:n>=2", "anchor:eth_sig", "anchor:eth_agg",
+_REQ = ["cross_suite_sequence", "sign:basic", "sign:aug", "sign:pop", "pop_prove", "aggregate:n>=2", "anchor:eth_sig", "anchor:eth_agg",
         "anchor:eth_pk", "sign:sk>=200b", "sign:msg=empty", "sign:msg=56-64", "aggregate:non_subgroup"]
 REQUIRED_LABELS = {"quick": _REQ, "thorough": _REQ}
 
@@ -63,6 +63,30 @@ def o_sign(ctx, case):
     ctx.sample(case, f"sign:{suite}")
 
 
+def o_cross(ctx, case):
+    """The same (sk, message) signed under the three suites and as a possession proof, in a drawn order
+    and then again in the reverse order, inside one process: every output must be the draft's value
+    whatever was computed before it (suite tags separate the suites, not the call history)."""
+    sk, msg, order = case["sk"], unhx(case["msg"]), case["order"]
+    ctx.begin("cross", case)
+    names = ["basic", "aug", "pop", "popprove"]
+    seq = [names[i % 4] for i in order] + [names[i % 4] for i in reversed(order)]
+    for pos, nm in enumerate(seq):
+        if nm == "popprove":
+            got, want = sc.lib_suite("pop").PopProve(sk), blssig.pop_prove(sk)
+            # and the message-signature of the key bytes under the POP suite right after it
+            got2, want2 = sc.lib_suite("pop").Sign(sk, blssig.sk_to_pk(sk)), blssig.sign("pop", sk, blssig.sk_to_pk(sk))
+            ctx.check(got2 == want2, "cross", "sign_of_key_bytes_after_popprove", case,
+                      "G2ProofOfPossession.Sign(sk, pk) right after PopProve(sk) is not the draft's value")
+        else:
+            got, want = sc.lib_suite(nm).Sign(sk, msg), blssig.sign(nm, sk, msg)
+        ctx.check(got == want, "cross", f"history_dependent:{nm}", case,
+                  f"{nm} output at position {pos} of the sequence {seq} is not the draft's value")
+    ctx.label("cross_suite_sequence")
+    ctx.nontrivial(("x", sk, case["msg"], order))
+    ctx.sample(case, "cross")
+
+
 def o_pop(ctx, case):
     sk = case["sk"]
     ctx.begin("pop_prove", case)
@@ -100,7 +124,7 @@ def o_aggregate(ctx, case):
     ctx.sample(case, "aggregate")
 
 
-ORACLES = {"sign": o_sign, "pop_prove": o_pop, "aggregate": o_aggregate}
+ORACLES = {"sign": o_sign, "pop_prove": o_pop, "aggregate": o_aggregate, "cross": o_cross}
 
 
 def s_sign(big):
@@ -148,6 +172,13 @@ def t_pop(ctx, shard, nshards, n):
           ex[shard::nshards], shrink=False)
 
 
+def t_cross(ctx, shard, n):
+    strat = st.fixed_dictionaries({"sk": sc.s_sk(), "msg": s_msg(80).map(hx),
+                                   "order": st.permutations([0, 1, 2, 3])})
+    ex = [{"sk": 5, "msg": "", "order": [0, 2, 1, 3]}, {"sk": R - 1, "msg": hx(b"m"), "order": [3, 2, 1, 0]}]
+    drive(ctx, f"cross{shard}", strat, lambda c: o_cross(ctx, c), n, ex if shard == 0 else (), shrink=False)
+
+
 def t_aggregate(ctx, shard, nshards, n):
     ex = []
     for j, agg in sorted(vectors.ETH_AGGS.items()):
@@ -165,6 +196,7 @@ def tasks(tier):
     for s in range(ns):
         out.append(Task(f"sign-{s}", "t_sign", shard=s, nshards=ns, n=90 if q else 1500))
     for s in range(3):
+        out.append(Task(f"cross-{s}", "t_cross", shard=s, n=8 if q else 250))
         out.append(Task(f"pop-{s}", "t_pop", shard=s, nshards=3, n=60 if q else 1200))
         out.append(Task(f"agg-{s}", "t_aggregate", shard=s, nshards=3, n=60 if q else 1200))
     return out
